@@ -8,6 +8,7 @@
 EXTENDS ArrayFnNumCat, Json, IOUtils, Integers
 CONSTANTS Seeds, DTs, ShAll, InLays, OutLays, KwKinds, KwShapes, KwDC,
           AliasCombos,  \* {<<alias, data class>>}: "N" = no aliasing
+          UCs,          \* unit-carrier patterns (which operand carries the units)
           AllClsDC      \* special-value data classes run on EVERY class (unsorted data with NaNs: in-place partition/sort of an input is visible)
 Cat == JsonDeserialize(IOEnv.CAT)
 Names(k) == {Cat[k][j] : j \in 1..Len(Cat[k])}
@@ -21,7 +22,8 @@ VARIABLE c
 Init == c = <<>>
 CaseX(g, fn, t, sh, dt, sd, li, lo, kw, kv, dc, rk, al) ==
   [layer |-> "C", fn |-> fn, cls |-> Groups[g].cls, t |-> t, sh |-> sh, dt |-> dt, sd |-> sd, kind |-> KindOfFn(fn),
-   li |-> li, lo |-> lo, tg |-> HasTarget(Groups[g].cls, t), kw |-> kw, kv |-> kv, dc |-> dc, rk |-> rk, al |-> al]
+   li |-> li, lo |-> lo, tg |-> HasTarget(Groups[g].cls, t), kw |-> kw, kv |-> kv, dc |-> dc, rk |-> rk, al |-> al, uc |-> "N"]
+CaseU(g, fn, t, sh, dt, dc, uc) == [CaseX(g, fn, t, sh, dt, 0, "C", "C", "", "", dc, 0, "N") EXCEPT !.uc = uc]
 Case(g, fn, t, sh, dt, sd, li, lo, kw, kv, dc) == CaseX(g, fn, t, sh, dt, sd, li, lo, kw, kv, dc, 0, "N")
 \* named combos for the cfgs
 CombosQuick == {<<"S", "plain">>, <<"S", "nan">>, <<"S", "inf">>, <<"S", "nz">>, <<"V", "nan">>, <<"N", "nan">>, <<"N", "nz">>}
@@ -39,6 +41,11 @@ Next == /\ c = <<>>
            \/ \E g \in {x \in GroupIdx : Groups[x].cls \in MultiOpCls} : \E fn \in Groups[g].fns \cap Catalogue, t \in Groups[g].t,
                  dt \in DTs, sh \in (IF Groups[g].sv THEN ShAll ELSE {"-"}), ac \in AliasCombos :
                     (ac[2] = "plain" \/ dt # "i") /\ DataOK(Groups[g].cls, ac[2]) /\ c' = CaseX(g, fn, t, sh, dt, 0, "C", "C", "", "", ac[2], 0, ac[1])
+           \* who carries the units (multi-operand classes) x plain data / operand pairs inside the tolerance band
+           \/ \E g \in {x \in GroupIdx : Groups[x].cls \in CarrierCls} : \E fn \in Groups[g].fns \cap Catalogue, t \in Groups[g].t,
+                 dt \in DTs, sh \in (IF Groups[g].sv THEN ShAll ELSE {"-"}), uc \in UCs \cup {"N"},
+                 dc \in {"plain"} \cup (IF Groups[g].cls \in BandCls THEN {"band"} ELSE {}) :
+                    (uc # "N" \/ dc = "band") /\ (dc = "plain" \/ dt # "i") /\ c' = CaseU(g, fn, t, sh, dt, dc, uc)
            \* special values on every class (no aliasing)
            \/ \E g \in GroupIdx : \E fn \in Groups[g].fns \cap Catalogue, t \in {x \in Groups[g].t : ~HasTarget(Groups[g].cls, x)},
                  dt \in DTs \ {"i"}, sh \in (IF Groups[g].sv THEN ShAll ELSE {"-"}), dc \in AllClsDC :
